@@ -192,14 +192,9 @@ func (t *Dense) CopyTo(other *Dense) error {
 		return errors.Errorf(sizeMismatch, t.Size(), other.Size())
 	}
 
-	// easy peasy lemon squeezy
-	if t.viewOf == 0 && other.viewOf == 0 {
-		copyDense(other, t)
-		return nil
-	}
-
-	// TODO: use copyDenseIter
-	return errors.Errorf(methodNYI, "CopyTo", "views")
+	// Copy picks the raw or the iterator copy from the layouts of both tensors (views, lazy
+	// transposes, non-contiguous clones); a raw copy of the windows is only right for plain tensors
+	return Copy(other, t)
 }
 
 // Narrow narrows the tensor.
